@@ -9,6 +9,7 @@ import WowVerif.Lemmas.C01
 import WowVerif.Lemmas.C01Whole
 import WowVerif.Lemmas.C01Bet
 import WowVerif.Lemmas.C01Het
+import WowVerif.Lemmas.C01Header
 namespace Wv.C01
 open Wv Wv.Mpq
 
@@ -163,6 +164,33 @@ theorem het_build_total (hashes : List Nat) : ∃ t, Het.build hashes = some t :
 /-- the byte stored for a name is never the free-slot marker (the hypothesis the proof of `het_finds` forced: with the
     marker 0xFF the code used before repair D63 this is false for one name in 128) -/
 theorem het_name_byte_never_free (full : Nat) : Het.nameHash1 full ≠ Het.FREE := Het.nameHash1_ne_free full
+
+/-! ### the archive header, every version (Model.C01Header = header.rs:read_with_limits + security.rs + builder.rs:write_header) -/
+
+/-- HEADER WRITE → READ, V1–V4: every header whose fields fit their widths and pass the reader's security checks is read
+    back exactly from the bytes the writer emits, whatever follows it in the file -/
+theorem header_roundtrip (h : Hdr.Hdr) (hw : Hdr.WF h) (rest : Bytes) : Hdr.parse (Hdr.write h ++ rest) = .ok h :=
+  Hdr.parse_write h hw rest
+
+/-- HEADER READ → WRITE: whatever the reader accepts is a well-formed header (it passed every check of
+    validate_header_security, its version is known, its size is at least the version's) and the file starts with exactly
+    the bytes the writer emits for it — no byte of an accepted header is ignored, and a second write is byte-identical -/
+theorem header_accepts_only_wellformed (bs : Bytes) (h : Hdr.Hdr) (hp : Hdr.parse bs = .ok h) :
+    Hdr.WF h ∧ ∃ rest, bs = Hdr.write h ++ rest := Hdr.write_parse bs h hp
+
+/-- the generic fact behind every fixed-layout record of the formats: fields written one after the other are read back
+    one after the other, for every layout (list of widths) and every list of values that fit -/
+theorem record_roundtrip (fs : List (Nat × Nat)) (rest : Bytes) (h : Rec.Fits fs) :
+    Rec.dec (fs.map (·.1)) (Rec.enc fs ++ rest) = some (fs.map (·.2), rest) := Rec.dec_enc fs rest h
+
+/-! non-vacuity: a V1 and a V4 header that satisfy WF (decided field by field) -/
+def hdrV1 : Hdr.Hdr := ⟨32, 1000, 0, 3, 500, 756, 16, 4, []⟩
+def hdrV4 : Hdr.Hdr := ⟨208, 5000, 3, 3, 4000, 4256, 16, 4, [0, 0, 0, 5000, 3000, 3500, 256, 64, 0, 300, 200, 16384, 1, 2, 3, 4, 5, 2 ^ 127]⟩
+example : Hdr.WF hdrV1 :=
+  ⟨(Rec.fitsB_iff _).mp (by decide +kernel), (Rec.fitsB_iff _).mp (by decide +kernel), by decide +kernel, by decide +kernel, by decide +kernel, by decide +kernel⟩
+example : Hdr.WF hdrV4 :=
+  ⟨(Rec.fitsB_iff _).mp (by decide +kernel), (Rec.fitsB_iff _).mp (by decide +kernel), by decide +kernel, by decide +kernel, by decide +kernel, by decide +kernel⟩
+example : (Hdr.write hdrV4).length = 208 := by decide +kernel
 
 /-! non-vacuity: three files, two of them sharing the table byte 0xFF (full hashes ending in 0x7F and 0xFF) -/
 example : (Het.build [0x1234567F, 0xABCDEFFF, 0x55550081]).isSome = true := by decide +kernel
